@@ -170,10 +170,33 @@ inductive VSel
   | cat (items : List VSel)
 deriving Repr, Inhabited
 
+mutual
+def VSel.decEq : (a b : VSel) → Decidable (a = b)
+  | .sig n r, .sig n' r' =>
+    if h : n = n' ∧ r = r' then isTrue (by rw [h.1, h.2]) else isFalse (by intro e; cases e; exact h ⟨rfl, rfl⟩)
+  | .sig _ _, .cat _ => isFalse (by intro e; cases e)
+  | .cat _, .sig _ _ => isFalse (by intro e; cases e)
+  | .cat l, .cat l' =>
+    match VSel.decEqL l l' with
+    | isTrue h => isTrue (by rw [h])
+    | isFalse h => isFalse (by intro e; cases e; exact h rfl)
+def VSel.decEqL : (a b : List VSel) → Decidable (a = b)
+  | [], [] => isTrue rfl
+  | [], _ :: _ => isFalse (by intro e; cases e)
+  | _ :: _, [] => isFalse (by intro e; cases e)
+  | x :: r, y :: s =>
+    match VSel.decEq x y, VSel.decEqL r s with
+    | isTrue h1, isTrue h2 => isTrue (by rw [h1, h2])
+    | isFalse h, _ => isFalse (by intro e; cases e; exact h rfl)
+    | _, isFalse h => isFalse (by intro e; cases e; exact h rfl)
+end
+
+instance : DecidableEq VSel := VSel.decEq
+
 inductive VPin
   | named (pin : String) (s : Option VSel)
   | pos (s : VSel)
-deriving Repr, Inhabited
+deriving DecidableEq, Repr, Inhabited
 
 inductive VKind | input | output | inout | tri | wire
 deriving DecidableEq, Repr, Inhabited
@@ -182,13 +205,13 @@ inductive VStmt
   | decl (k : VKind) (r : Option Range) (names : List String)
   | assign (t s : VSel)
   | inst (type name : String) (pins : List VPin)
-deriving Repr, Inhabited
+deriving DecidableEq, Repr, Inhabited
 
 structure VModule where
   name : String
   ports : List String
   stmts : List VStmt
-deriving Repr, Inhabited
+deriving DecidableEq, Repr, Inhabited
 
 /-! ## grammar -/
 
@@ -584,5 +607,214 @@ def toR : VStmt → Option RStmt
 def VStmt.hasPos : VStmt → Bool
   | .inst _ _ pins => pins.any VPin.isPos
   | _ => false
+
+/-! ## printing -/
+
+/-- the text has the shape of an identifier `[a-z_][a-z0-9_]*` -/
+def isIdentWord : List Char → Bool
+  | [] => false
+  | c :: r => isIdStart c && r.all isIdChar
+
+/-- a name that can be written without backslash: an identifier that is no statement keyword, or a sized constant -/
+def isPlainWord (w : List Char) : Bool := (isIdentWord w && (kwOf w).isNone) || isConstWord w
+
+/-- how a name is written: plain when possible, otherwise as escaped identifier -/
+def nameTok (n : String) : Tok := if isPlainWord n.toList then .word n.toList else .esc n.toList
+
+/-- a token together with the lexer context in which the parser pulls it -/
+abbrev CT := Ctx × Tok
+
+def gt (t : Tok) : CT := (.gen, t)
+def gs (c : Char) : CT := (.gen, .sym c)
+def natT (n : Nat) : CT := (.num, .num (Nat.toDigits 10 n))
+
+def rangeT : Range → List CT
+  | (l, none) => [gs '[', natT l, gs ']']
+  | (l, some r) => [gs '[', natT l, gs ':', natT r, gs ']']
+
+def rangeOptT : Option Range → List CT
+  | none => []
+  | some r => rangeT r
+
+/-- `, a , b` and the closing literal -/
+def namesTailT (e : Char) : List String → List CT
+  | [] => [gs e]
+  | n :: r => gs ',' :: gt (nameTok n) :: namesTailT e r
+
+def namesT (e : Char) : List String → List CT
+  | [] => [gs e]
+  | n :: r => gt (nameTok n) :: namesTailT e r
+
+mutual
+def selT : VSel → List CT
+  | .sig n r => gt (nameTok n) :: rangeOptT r
+  | .cat items => gs '{' :: selsT items
+/-- `a , b }` -/
+def selsT : List VSel → List CT
+  | [] => [gs '}']
+  | x :: r => selT x ++ selsTailT r
+/-- `, a , b }` -/
+def selsTailT : List VSel → List CT
+  | [] => [gs '}']
+  | x :: r => gs ',' :: (selT x ++ selsTailT r)
+end
+
+def pinT : VPin → List CT
+  | .named p none => [gs '.', gt (nameTok p), gs '(', gs ')']
+  | .named p (some x) => gs '.' :: gt (nameTok p) :: gs '(' :: (selT x ++ [gs ')'])
+  | .pos x => selT x
+
+def pinsTailT : List VPin → List CT
+  | [] => [gs ')']
+  | p :: r => gs ',' :: (pinT p ++ pinsTailT r)
+
+def pinsT : List VPin → List CT
+  | [] => [gs ')']
+  | p :: r => pinT p ++ pinsTailT r
+
+def kwEndmodule : List Char := ['e', 'n', 'd', 'm', 'o', 'd', 'u', 'l', 'e']
+def kwAssign : List Char := ['a', 's', 's', 'i', 'g', 'n']
+
+def kindWord : VKind → List Char
+  | .input => ['i', 'n', 'p', 'u', 't']
+  | .output => ['o', 'u', 't', 'p', 'u', 't']
+  | .inout => ['i', 'n', 'o', 'u', 't']
+  | .tri => ['t', 'r', 'i']
+  | .wire => ['w', 'i', 'r', 'e']
+
+def stmtT : VStmt → List CT
+  | .decl k r ns => gt (.word (kindWord k)) :: (rangeOptT r ++ namesT ';' ns)
+  | .assign t s => gt (.word kwAssign) :: (selT t ++ gs '=' :: (selT s ++ [gs ';']))
+  | .inst ty nm pins => gt (nameTok ty) :: gt (nameTok nm) :: gs '(' :: (pinsT pins ++ [gs ';'])
+
+def stmtsT : List VStmt → List CT
+  | [] => [gt (.word kwEndmodule)]
+  | st :: r => stmtT st ++ stmtsT r
+
+def moduleT (m : VModule) : List CT :=
+  (.top, .modkw) :: gt (nameTok m.name) :: gs '(' :: (namesT ')' m.ports ++ gs ';' :: stmtsT m.stmts)
+
+/-- the token stream of a module list (what every layout of it must lex to) -/
+def modulesT : List VModule → List CT
+  | [] => []
+  | m :: r => moduleT m ++ modulesT r
+
+def tokText : Tok → List Char
+  | .word s => s
+  | .esc s => '\\' :: s
+  | .num s => s
+  | .sym c => [c]
+  | .modkw => kwModule
+  | .eof => []
+
+/-- token list with a gap behind every token; the first character of the gap behind an escaped identifier is its terminator -/
+def renderL : List (CT × List Char) → List Char
+  | [] => []
+  | (t, g) :: r => tokText t.2 ++ (g ++ renderL r)
+
+/-- no blank in front of these -/
+def tightBefore (t : Tok) : Bool :=
+  t == .sym ';' || t == .sym ',' || t == .sym ')' || t == .sym ']' || t == .sym ':' || t == .sym '[' || t == .sym '}' || t == .sym '('
+/-- no blank behind these -/
+def tightAfter (t : Tok) : Bool :=
+  t == .sym '(' || t == .sym '[' || t == .sym '.' || t == .sym '{' || t == .sym ':'
+
+/-- canonical gap between a token and its successor: a blank after an escaped identifier (its terminator), a line break
+after `;`, in front of `module` and at the end, nothing around brackets and in front of separators (but a blank between a
+declaration keyword and its range), one blank otherwise -/
+def gapAfter (t : Tok) (nx : Option Tok) : List Char :=
+  match t with
+  | .esc _ => [' ']
+  | _ =>
+    match nx with
+    | none => ['\n']
+    | some t' =>
+      if t == .sym ';' || t' == .modkw then ['\n']
+      else if tightAfter t then []
+      else if t' == .sym '[' then
+        match t with
+        | .word w => if (kwOf w).isSome then [' '] else []
+        | _ => []
+      else if tightBefore t' then []
+      else [' ']
+
+def layout : List CT → List (CT × List Char)
+  | [] => []
+  | [t] => [(t, gapAfter t.2 none)]
+  | t :: t' :: r => (t, gapAfter t.2 (some t'.2)) :: layout (t' :: r)
+
+def printVerilog (ms : List VModule) : String := String.ofList (renderL (layout (modulesT ms)))
+
+/-! ## trees that can be written -/
+
+/-- a name: non-empty, without tab, blank, `\r`, `\n` (every such string is the name of an escaped identifier) -/
+def validName (s : String) : Bool := !s.toList.isEmpty && s.toList.all notEscTerm
+
+mutual
+/-- names are names, concatenations have at least one item -/
+def validSel : VSel → Bool
+  | .sig n _ => validName n
+  | .cat items => validSels items && !items.isEmpty
+def validSels : List VSel → Bool
+  | [] => true
+  | x :: r => validSel x && validSels r
+end
+
+def validPin : VPin → Bool
+  | .named p none => validName p
+  | .named p (some x) => validName p && validSel x
+  | .pos x => validSel x
+
+def validStmt : VStmt → Bool
+  | .decl _ _ ns => ns.all validName && !ns.isEmpty
+  | .assign t s => validSel t && validSel s
+  | .inst ty nm pins => validName ty && validName nm && pins.all validPin
+
+def validModule (m : VModule) : Bool := validName m.name && m.ports.all validName && m.stmts.all validStmt
+
+/-! ## layouts (for the statements of the round-trip theorems) -/
+
+/-- `g` is ignorable text that ends between items: blanks, tabs, form feeds, `\n`, `\r\n`, closed `/* */`, `(* *)`, and
+`//` comments closed by their `\n` -/
+def gapV : Mode → List Char → Bool
+  | .ws, [] => true
+  | _, [] => false
+  | .ws, c :: r =>
+    if c == ' ' || c == '\t' || c == '\x0c' || c == '\n' then gapV .ws r
+    else if c == '\r' then gapV .cr r
+    else if c == '/' then gapV .slash r
+    else if c == '(' then gapV .lp r
+    else false
+  | .cr, c :: r => if c == '\n' then gapV .ws r else false
+  | .slash, c :: r => if c == '*' then gapV .bc r else if c == '/' then gapV .lc r else false
+  | .lc, c :: r => if c == '\n' then gapV .ws r else gapV .lc r
+  | .bc, c :: r => if c == '*' then gapV .bcs r else gapV .bc r
+  | .bcs, c :: r => if c == '/' then gapV .ws r else if c == '*' then gapV .bcs r else gapV .bc r
+  | .lp, c :: r => if c == '*' then gapV .at r else false
+  | .at, c :: r => if c == '*' then gapV .ats r else gapV .at r
+  | .ats, c :: r => if c == ')' then gapV .ws r else if c == '*' then gapV .ats r else gapV .at r
+
+/-- the text does not start with a character for which `p` holds -/
+def headNot (p : Char → Bool) : List Char → Bool
+  | [] => true
+  | c :: _ => !p c
+
+/-- the gap `g` behind token `t`, followed by the text `rest`: ignorable; a word or number is not directly followed by an
+identifier character, `(` not by `*`; behind an escaped identifier first its terminator -/
+def gapOK (t : Tok) (g rest : List Char) : Bool :=
+  match t with
+  | .esc _ =>
+    match g with
+    | e :: g' => isEscTerm e && gapV .ws g'
+    | [] => false
+  | .word _ => gapV .ws g && headNot isIdChar (g ++ rest)
+  | .num _ => gapV .ws g && headNot isIdChar (g ++ rest)
+  | .sym c => gapV .ws g && (c != '(' || headNot (· == '*') (g ++ rest))
+  | .modkw => gapV .ws g
+  | .eof => false
+
+def layoutOK : List (CT × List Char) → Bool
+  | [] => true
+  | (t, g) :: r => gapOK t.2 g (renderL r) && layoutOK r
 
 end KV.VerilogText
